@@ -49,6 +49,8 @@ def main():
             return nonascii_text(c, tmp)
         if fn == "empty_chunks":
             return empty_chunks(c, tmp)
+        if fn == "meta_value_kinds":
+            return meta_value_kinds(c, tmp)
         return ["unknown-fn", fn]
 
     def foreign_chunk(c, tmp):
@@ -185,6 +187,61 @@ def main():
         a, b = out, want
         same = len(a) == len(b) and ("x" not in a.columns or sorted(a["x"].tolist()) == sorted(b["x"].tolist()))
         return ["ok", "clean" if same else "differs", "%d rows written, %d read" % (len(b), len(a))]
+
+    def meta_value_kinds(c, tmp):
+        """Every Python value KIND a caller can plausibly pass where str / bytes are expected, through one metadata entry point:
+        the outcome must be a Python exception or a file that still opens - never a signal (an unsupported kind must not reach
+        the compiled thrift serialiser)."""
+        import pandas as pd
+        kinds = {
+            "bytearray": lambda: bytearray(b"value\x00\xff"), "memoryview": lambda: memoryview(b"value\x00\xff"),
+            "np.bytes_": lambda: np.bytes_(b"value"), "np.str_": lambda: np.str_("value"), "int": lambda: 7, "float": lambda: 1.5,
+            "None": lambda: None, "bool": lambda: True, "list": lambda: ["a", b"b"], "tuple": lambda: ("a",), "dict": lambda: {"a": "b"},
+            "np.int64": lambda: np.int64(3), "np.array": lambda: np.frombuffer(b"value", dtype="uint8"), "object": lambda: object(),
+            "str-subclass": lambda: type("S", (str,), {})("value"), "bytes-subclass": lambda: type("B", (bytes,), {})(b"value"),
+            "set": lambda: {"a"}, "nested-bytearray": lambda: [bytearray(b"x")],
+        }
+        v = kinds[c["kind"]]()
+        df = pd.DataFrame({"x": np.arange(5, dtype="int64"), "s": ["a", "b", "c", "d", "e"]})
+        fnm = os.path.join(tmp, "t.parquet")
+        entry = c["entry"]
+        try:
+            if entry == "write_value":
+                fastparquet.write(fnm, df, custom_metadata={"k": v})
+            elif entry == "write_key":
+                fastparquet.write(fnm, df, custom_metadata={v: "value"})
+            elif entry == "update_value":
+                fastparquet.write(fnm, df)
+                from fastparquet.writer import update_file_custom_metadata
+                update_file_custom_metadata(fnm, {"k": v})
+            elif entry == "update_key":
+                fastparquet.write(fnm, df)
+                from fastparquet.writer import update_file_custom_metadata
+                update_file_custom_metadata(fnm, {v: "value"})
+            elif entry == "hive_value":
+                fastparquet.write(os.path.join(tmp, "ds"), df, file_scheme="hive", custom_metadata={"k": v})
+                fnm = os.path.join(tmp, "ds")
+            elif entry == "attrs_value":
+                df.attrs = {"k": v}
+                fastparquet.write(fnm, df)
+            elif entry == "fmd_kv":
+                # the key-value list of the footer object itself, as a caller editing pf.fmd would set it
+                fastparquet.write(fnm, df)
+                from fastparquet import parquet_thrift
+                pf = fastparquet.ParquetFile(fnm)
+                pf.fmd.key_value_metadata = [parquet_thrift.KeyValue(key="k", value=v)]
+                from fastparquet import writer
+                with open(fnm + ".meta", "wb") as f:
+                    writer.write_thrift(f, pf.fmd)
+            else:
+                return ["unknown-entry", entry]
+        except Exception as e:       # noqa
+            return ["ok", "write-raised", "%s: %s" % (type(e).__name__, str(e)[:80])]
+        try:
+            n = len(fastparquet.ParquetFile(fnm).to_pandas())
+        except Exception as e:       # noqa
+            return ["ok", "read-raised", "%s: %s" % (type(e).__name__, str(e)[:80])]
+        return ["ok", "clean" if n == 5 else "differs", "%d rows" % n]
 
     def mt_read(c, tmp):
         """Concurrent well-formed use: ONE ParquetFile handle, several threads, each reading its own column(s) over and
